@@ -3,6 +3,11 @@
 // to quiescence, and writes the observed trace in the line format read by ocaml/seq/driver.ml.
 package seqdiff
 
+import (
+	"encoding/json"
+	"fmt"
+)
+
 // KeyRef names a key symbolically so that histories replay although the server draws fresh UUIDs:
 // Pre + (key returned by event Ref, if Ref >= 0) + Suf, or the literal Lit when Ref < 0.
 type KeyRef struct {
@@ -36,11 +41,52 @@ type Cfg struct {
 
 // History.Mode: "" (direct: LockServer.Lock/TryLock/Unlock/Renew are called) or "service" (the same requests go through the
 // real grpc.Service handlers of net/grpc as *pb.LockRequest etc.; the trace then carries error CODES, see exec.go).
+//
+// History.InitFile ("boot on an adversarial state file", Model/SeqFile.v): when present and Cfg.File is set, the executor writes
+// these sessions to the state file with the REAL store before the first boot; the first event of the history must then be
+// `restart` (it IS that first boot: the model's ERestart from file_state) and the trace carries an `F` line after the C line.
+// The session ids of the file belong to a previous run: they are never live connections of the history.
 type History struct {
-	ID     string `json:"id"`
-	Cfg    Cfg    `json:"cfg"`
-	Mode   string `json:"mode,omitempty"`
-	Events []Ev   `json:"events"`
+	ID        string   `json:"id"`
+	Cfg       Cfg      `json:"cfg"`
+	Mode      string   `json:"mode,omitempty"`
+	InitFile  *[]FSess `json:"init_file,omitempty"`
+	InitClass string   `json:"init_class,omitempty"` // which generator class produced InitFile (coverage only)
+	Events    []Ev     `json:"events"`
+}
+
+// FSess is one session of an initial state file: its id (hex) and its list of client locks IN ORDER.
+type FSess struct {
+	Sid   string  `json:"sid"` // hex
+	Locks []FLock `json:"locks"`
+}
+
+// FLock is one entry of a session's list; JSON form [name hex, key hex, size].
+type FLock struct {
+	Name string // hex
+	Key  string // hex
+	Size int32
+}
+
+func (l FLock) MarshalJSON() ([]byte, error) {
+	return json.Marshal([]any{l.Name, l.Key, l.Size})
+}
+
+func (l *FLock) UnmarshalJSON(b []byte) error {
+	var raw []json.RawMessage
+	if err := json.Unmarshal(b, &raw); err != nil {
+		return err
+	}
+	if len(raw) != 3 {
+		return fmt.Errorf("init_file lock: want [name, key, size], got %d fields", len(raw))
+	}
+	if err := json.Unmarshal(raw[0], &l.Name); err != nil {
+		return err
+	}
+	if err := json.Unmarshal(raw[1], &l.Key); err != nil {
+		return err
+	}
+	return json.Unmarshal(raw[2], &l.Size)
 }
 
 // Profile steers the generator (one per property check; written by checks/*.py).
@@ -66,4 +112,5 @@ type Profile struct {
 	NoSessPct   int            `json:"no_sess_pct"`
 	Drain       bool           `json:"drain"` // finish with TryLocks until refused on every name
 	StickySizePct int          `json:"sticky_size_pct"` // chance that a Lock/TryLock asks for the size the name was last granted with
+	InitFilePct   int          `json:"init_file_pct"`   // share of the histories that boot on a generated state file (gen.go InitFile); ids f<seed>-<k>
 }
